@@ -398,7 +398,8 @@ pub enum Stream { Main, Fold, OfZero, Deep, Lazy }
 impl Stream { pub fn name(self) -> &'static str { match self { Stream::Main => "main", Stream::Fold => "fold", Stream::OfZero => "of_zero", Stream::Deep => "deep_vars", Stream::Lazy => "lazy_search" } } }
 
 #[derive(Clone, Debug)]
-pub struct VarInfo { pub name: usize, pub ty: T, pub cval: Option<i64> }
+pub struct VarInfo { pub name: usize, pub ty: T, pub cval: Option<i64>, /// known to hold a small value (usable as a loop bound)
+    pub small: bool }
 
 pub struct Gen<'a> {
     pub rng: &'a mut Rng,
@@ -429,6 +430,11 @@ impl<'a> Gen<'a> {
         // innermost binding of each name wins
         let mut seen = vec![]; let mut out = vec![];
         for v in self.scope.iter().rev() { if !seen.contains(&v.name) { seen.push(v.name); if v.ty == t { out.push(v.name) } } }
+        out
+    }
+    fn small_vars(&self) -> Vec<usize> {
+        let mut seen = vec![]; let mut out = vec![];
+        for v in self.scope.iter().rev() { if !seen.contains(&v.name) { seen.push(v.name); if v.ty == T::Int && v.small { out.push(v.name) } } }
         out
     }
     fn fresh(&mut self) -> usize {
@@ -482,7 +488,7 @@ impl<'a> Gen<'a> {
     }
     /// small non-negative values: offsets, range bounds, shift counts, indexes
     pub fn small_int(&mut self, d: u32) -> E {
-        let vars = self.vars_of(T::Int);
+        let vars = self.small_vars();
         loop {
             match self.rng.below(12) {
                 0..=3 => return E::Int(self.rng.range(0, 12)),
@@ -703,7 +709,7 @@ impl<'a> Gen<'a> {
                 let q = self.quant(4, 0, d - 1);
                 let x = self.fresh();
                 let saved = self.iters; self.iters = self.iters.saturating_mul(len);
-                let b = self.with_scope(vec![VarInfo { name: x, ty: T::Int, cval: None }], 7, |g| g.gen_bool(d - 1));
+                let b = self.with_scope(vec![VarInfo { name: x, ty: T::Int, cval: None, small: true }], 7, |g| g.gen_bool(d - 1));
                 self.iters = saved;
                 E::ForRange(q, x, bx(lo), bx(hi), bx(b))
             }
@@ -714,7 +720,7 @@ impl<'a> Gen<'a> {
                 let q = self.quant(n, 0, d - 1);
                 let x = self.fresh();
                 let saved = self.iters; self.iters = self.iters.saturating_mul(n as u64);
-                let b = self.with_scope(vec![VarInfo { name: x, ty, cval: None }], 7, |g| g.gen_bool(d - 1));
+                let b = self.with_scope(vec![VarInfo { name: x, ty, cval: None, small: false }], 7, |g| g.gen_bool(d - 1));
                 self.iters = saved;
                 E::ForTuple(q, x, items, bx(b))
             }
@@ -727,7 +733,7 @@ impl<'a> Gen<'a> {
                     let e = match ty { T::Int => if self.rng.chance(1, 4) { self.undef_int() } else { self.gen_int(d.min(3) - 1) }, T::Str => self.str_expr(), T::Bool => self.bool_ident().unwrap() };
                     let x = self.fresh();
                     let cval = if ty == T::Int { cfold(&e, &self.cscope()) } else { None };
-                    let vi = VarInfo { name: x, ty, cval };
+                    let vi = VarInfo { name: x, ty, cval, small: false };
                     self.scope.push(vi.clone()); infos.push(vi);
                     decls.push((x, e));
                 }
@@ -856,6 +862,7 @@ pub fn run_impl(sources: &[(String, String)], compile_time: &[GV], globals: &[GV
     };
     match catch(AssertUnwindSafe(|| {
         let mut s = yara_x::Scanner::new(&rules);
+        s.set_timeout(std::time::Duration::from_secs(20));
         set_globals(&mut s, globals);
         let res = s.scan(data).map_err(|e| e.to_string())?;
         let mut all: Vec<usize> = res.matching_rules().include_private(true).filter_map(|r| rule_index(r.identifier())).collect();
